@@ -355,8 +355,8 @@ pub fn run(ctx: &Ctx, out: &mut Out, prop: &str) {
         return;
     }
     let n = match prop {
-        "C17" => ctx.share(160, 6_000),
-        _ => ctx.share(480, 24_000),
+        "C17" => ctx.share(1_600, 16_000),
+        _ => ctx.share(3_200, 48_000),
     };
     for i in 0..n {
         history(ctx, out, &mut rng, prop, i * ctx.nshards + ctx.shard);
